@@ -181,10 +181,9 @@ func (m *TargetsDiscovery) translateTargets(targets map[string][]*targetgroup.Gr
 		}
 
 		for _, tr := range tsg {
-			ts, err := targetsFromGroup(tr, cfg)
-			if err != nil {
+			ts, failures := targetsFromGroup(tr, cfg)
+			for _, err := range failures {
 				m.log.Error("create target for job", cfg.JobName, err.Error())
-				continue
 			}
 
 			for _, tar := range ts {
